@@ -324,6 +324,8 @@ def parse_type(s):
         return ("set",)
     if s.startswith("pairdict "):
         return ("pairdict", parse_type(s[9:]))
+    if s.startswith("strdict "):
+        return ("strdict", parse_type(s[8:]))
     return (s,)
 
 
@@ -358,11 +360,19 @@ def coq_type(t):
         return "(list Z)"
     if t[0] == "pairdict":
         return "(list ((Z * Z) * %s))" % coq_type(t[1])
+    if t[0] == "strdict":
+        return "(list (pystr * %s))" % coq_type(t[1])
     return t[0]
 
 
 NONE_T = ("none",)       # type of the literal None before it meets an option type
 EMPTY_T = ("emptylist",)  # type of the literal [] before it meets a list type
+
+
+def str_literal(s):
+    """a Python str constant: the list of its code points, as a term of type PyRt.pystr (with the text as a comment)"""
+    note = " (* %s *)" % s if s and all(c.isalnum() or c in "_-. " for c in s) and s.isascii() else ""
+    return "([%s] : pystr)%s" % ("; ".join(str(ord(c)) for c in s), note)
 
 
 def tuple_term(names):
@@ -557,6 +567,8 @@ class Tr:
                 fr = Fraction(repr(e.value))      # the decimal value of the literal's shortest repr
                 tmpl, ty = self.cfg["float_literals"]
                 return "(" + tmpl.format(n=fr.numerator, d=fr.denominator) + ")", parse_type(ty)
+            if isinstance(e.value, str) and self.cfg.get("strings"):      # cfg["strings"]: a str constant is the list of its code points
+                return str_literal(e.value), ("pystr",)
             raise Unsupported("constant: %r" % (e.value,))
         if isinstance(e, ast.List):
             if not e.elts:
@@ -573,6 +585,10 @@ class Tr:
             return "[" + "; ".join(p[0] for p in parts) + "]", ("list", parts[0][1])
         if isinstance(e, ast.Dict) and not e.keys:
             return "[]", EMPTY_T
+        if isinstance(e, ast.Dict) and self.cfg.get("strings"):
+            return self.strdict_literal(e, env, hoist)
+        if isinstance(e, ast.Attribute) and e.attr == "__dict__" and self.cfg.get("dataclass"):
+            return self.dataclass_dict(e, env, hoist)
         if isinstance(e, ast.DictComp):
             # {k(x): v(x) for x in L}  ->  fold_left (fun d x => dict_set d k v) L []; neither k nor v may raise
             if len(e.generators) != 1 or e.generators[0].is_async or e.generators[0].ifs \
@@ -686,6 +702,10 @@ class Tr:
             if len(e.ops) != 1:
                 raise Unsupported("chained comparison: " + ast.unparse(e))
             return self.compare(e.left, e.ops[0], e.comparators[0], env, hoist), ("bool",)
+        if isinstance(e, ast.Subscript) and not isinstance(e.slice, (ast.Slice, ast.Tuple)) and self.cfg.get("strings"):
+            r = self.strdict_or_tuple_subscript(e, env, hoist)      # d[k] on a `strdict T`, t[i] on a tuple (cfg["strings"])
+            if r is not None:
+                return r
         if isinstance(e, ast.Subscript) and not isinstance(e.slice, (ast.Slice, ast.Tuple)) and self.M["type"] == "result":
             # d[k] read on a `dict T`: checked lookup (PyRt.dict_get, KeyError = Err 96); any other subscript is refused
             mark = len(hoist)
@@ -698,6 +718,79 @@ class Tr:
             hoist.append((n, "dict_get %s %s" % (d, self.need(kk, kt, ("Z",), hoist))))
             return n, dt[1]
         raise Unsupported("expression: " + ast.unparse(e))
+
+    # ---- cfg["strings"]: str constants, dicts with string keys, constant tuple indices; cfg["dataclass"]
+    def strdict_elem(self, vt):
+        """the value type of a dict display: cfg["strdict_elem"] when declared (every value is coerced to it), else [vt]"""
+        return parse_type(self.cfg["strdict_elem"]) if self.cfg.get("strdict_elem") else vt
+
+    def strdict_literal(self, e, env, hoist):
+        """{k1: v1, ..., kn: vn} with keys of type str: the entries are inserted from the left (PyRt.sdict_set: a repeated key
+        keeps its first place and gets the last value); keys and values are evaluated in source order"""
+        if any(k is None for k in e.keys):
+            raise Unsupported("dict display with ** unpacking: " + ast.unparse(e)[:80])
+        term, et = "[]", None
+        for kn, vn in zip(e.keys, e.values):
+            kk, kt = self.expr(kn, env, hoist)
+            kk = self.need(kk, kt, ("pystr",), hoist)
+            vv, vt = self.expr(vn, env, hoist)
+            if et is None:
+                et = self.strdict_elem(vt)
+            term = "(sdict_set %s %s %s)" % (term, kk, self.need(vv, vt, et, hoist))
+        return term, ("strdict", et)
+
+    def dataclass_dict(self, e, env, hoist):
+        """x.__dict__ with x an instance of the function's own @dataclass (cfg["dataclass"], checked against the class body by
+        check_dataclass): the dict {field: x.field} over the fields in declaration order"""
+        dc = self.cfg["dataclass"]
+        o, ot = self.expr(e.value, env, hoist)
+        if ot != parse_type(dc["owner"]):
+            raise Unsupported("__dict__ of a %s (the dataclass is declared as %s)" % (ot, dc["owner"]))
+        term, et = "[]", None
+        for name in dc["fields"]:
+            if name not in self.fields or self.fields[name][0] != ot:
+                raise Unsupported("dataclass field %s is not a declared field of %s" % (name, dc["owner"]))
+            _, fty, getter, _ = self.fields[name]
+            if et is None:
+                et = self.strdict_elem(fty)
+            term = "(sdict_set %s %s %s)" % (term, str_literal(name), self.need("(" + getter.format(obj=o) + ")", fty, et, hoist))
+        if et is None:
+            raise Unsupported("__dict__ of a dataclass without fields")
+        return term, ("strdict", et)
+
+    def strdict_or_tuple_subscript(self, e, env, hoist):
+        """d[k] with d : strdict T (a checked read, KeyError = Err cfg["key_error"]); t[i] with t of a tuple type and i a
+        constant index within it (a projection).  None when the subscripted value is neither (the caller goes on)."""
+        mark, saved = len(hoist), self.fresh
+        try:
+            d, dt = self.expr(e.value, env, hoist)
+        except Unsupported:
+            del hoist[mark:]
+            self.fresh = saved
+            return None
+        if dt[0] == "strdict":
+            tag = self.cfg.get("key_error")
+            if tag is None or self.M["type"] != "result":
+                raise Unsupported("read of a string-keyed dict without a declared key_error: " + ast.unparse(e))
+            kk, kt = self.expr(e.slice, env, hoist)
+            n = self.new("r")
+            hoist.append((n, "sdict_read (%d) %s %s" % (tag, d, self.need(kk, kt, ("pystr",), hoist))))
+            return n, dt[1]
+        if dt[0] == "tuple" and isinstance(e.slice, ast.Constant) and isinstance(e.slice.value, int) \
+                and not isinstance(e.slice.value, bool) and 0 <= e.slice.value < len(dt[1]):
+            i, n = e.slice.value, len(dt[1])
+            return self.tuple_proj(d, i, n), dt[1][i]
+        del hoist[mark:]
+        self.fresh = saved
+        return None
+
+    def tuple_proj(self, t, i, n):
+        """component i of an n-tuple term: Coq's (a1, ..., an) is ((...(a1, a2), ...), an)"""
+        if n == 1:
+            return t
+        for _ in range(n - 1 - max(i, 1)):
+            t = "(fst %s)" % t
+        return "(fst %s)" % t if i == 0 else "(snd %s)" % t
 
     def tuple_comp_target(self, t):
         return isinstance(t, ast.Tuple) and len(t.elts) >= 2 and all(isinstance(x, ast.Name) for x in t.elts)
@@ -745,7 +838,14 @@ class Tr:
             raise Unsupported("positional argument in a keyword call: " + ast.unparse(e)[:80])
         declared = {p: pt for p, pt, _ in params}
         given = {}
+        unpack = None
         for kw in e.keywords:      # source order = Python's evaluation order
+            if kw.arg is None and self.cfg.get("type_error") is not None and self.M["type"] == "result" and kw is e.keywords[-1]:
+                d, dt = self.expr(kw.value, env, hoist)      # F(k1=e1, ..., **d) with d : strdict T, the last argument
+                if dt[0] != "strdict":
+                    raise Unsupported("** unpacking of a %s: %s" % (dt, ast.unparse(e)[:80]))
+                unpack = (d, dt[1])
+                continue
             if kw.arg is None:
                 raise Unsupported("**kwargs in a keyword call: " + ast.unparse(e)[:80])
             if kw.arg not in declared or kw.arg in given:
@@ -753,6 +853,20 @@ class Tr:
             a, at = self.expr(kw.value, env, hoist)
             given[kw.arg] = self.need(a, at, declared[kw.arg], hoist)
         args = {}
+        if unpack is not None:
+            # the keys of d must be parameters the call does not pass itself (else TypeError); every other parameter is read
+            # from d (a missing one is a TypeError too) and coerced to its declared type
+            tag, (d, vt) = self.cfg["type_error"], unpack
+            rest_params = [(p, pt) for p, pt, default in params if p not in given]
+            if any(default is not None for p, pt, default in params if p not in given):
+                raise Unsupported("** unpacking into a parameter with a default value: " + ast.unparse(e)[:80])
+            hoist.append((self.new("u"), "sdict_only (%d) [%s] %s" % (tag, "; ".join(str_literal(p) for p, _ in rest_params), d)))
+            read = {}
+            for p, pt in rest_params:
+                read[p] = self.new("kw")
+                hoist.append((read[p], "sdict_read (%d) %s %s" % (tag, d, str_literal(p))))
+            for p, pt in rest_params:      # the coercions (cfg["checked_coerce"] may raise) after the call's own TypeErrors
+                given[p] = self.need(read[p], vt, pt, hoist)
         for p, pt, default in params:
             if p in given:
                 args[p] = given[p]
@@ -800,6 +914,8 @@ class Tr:
             return "[]"
         if want[0] == "pairdict" and have == EMPTY_T:
             return "[]"
+        if want[0] == "strdict" and have == EMPTY_T:
+            return "[]"
         if {have, want} == {("dict",), ("dictof", ("Z",))}:
             return term
         co = self.coercion(have, want)
@@ -809,6 +925,11 @@ class Tr:
             n = self.new("u")
             hoist.append((n, "%s %s" % (self.M["unwrap"], term)))
             return n
+        for a, b, tmpl in self.cfg.get("checked_coerce", []):      # cfg["checked_coerce"]: a downcast that may raise
+            if (parse_type(a), parse_type(b)) == (have, want) and self.M["type"] == "result":
+                n = self.new("c")
+                hoist.append((n, tmpl.format(x=term)))
+                return n
         raise Unsupported("type mismatch: %s has type %s, needed %s" % (term, have, want))
 
     def coercion(self, have, want):
@@ -857,6 +978,10 @@ class Tr:
             a, at = self.expr(le.elts[0], env, hoist)
             b, bt = self.expr(le.elts[1], env, hoist)
             r = "(pdict_mem %s %s %s)" % (re.id, self.need(a, at, ("Z",), hoist), self.need(b, bt, ("Z",), hoist))
+            return r if isinstance(op, ast.In) else "(negb %s)" % r
+        if isinstance(op, (ast.In, ast.NotIn)) and isinstance(re, ast.Name) and env.get(re.id, ("unit",))[0] == "strdict":
+            x, xt = self.expr(le, env, hoist)      # k in d / k not in d on a string-keyed dict
+            r = "(sdict_mem %s %s)" % (re.id, self.need(x, xt, ("pystr",), hoist))
             return r if isinstance(op, ast.In) else "(negb %s)" % r
         if isinstance(op, (ast.In, ast.NotIn)):
             x, xt = self.expr(le, env, hoist)
@@ -1889,9 +2014,12 @@ class Tr:
         # what is iterated
         if isinstance(it, ast.Call) and isinstance(it.func, ast.Attribute) and it.func.attr == "items" and not it.args:
             d, dt = self.expr(it.func.value, env, hoist)
-            if dt != ("dict",) or len(tnames) != 2:
+            if dt[0] == "strdict" and len(tnames) == 2:      # a string-keyed dict: its (key, value) entries in insertion order
+                xs, elt = d, [("pystr",), dt[1]]
+            elif dt != ("dict",) or len(tnames) != 2:
                 raise Unsupported("items() of a non-dict: " + ast.unparse(it))
-            xs, elt = "(dict_items %s)" % d, [("Z",), ("Z",)]
+            else:
+                xs, elt = "(dict_items %s)" % d, [("Z",), ("Z",)]
         elif isinstance(it, ast.Call) and isinstance(it.func, ast.Name) and it.func.id == rn("enumerate") and len(it.args) == 1:
             l, lt = self.expr(it.args[0], env, hoist)
             if lt[0] != "list" or len(tnames) != 2:
@@ -1942,8 +2070,12 @@ class Tr:
         carried = list(dict.fromkeys(carried))
         dropped = [v for v in (tnames + body_assigned) if (not bound(v) or v in retyped) and v != "_"]
         dropped = list(dict.fromkeys(dropped))
+        rv = None      # cfg["loop_return"]: the loop's state gains an optional return value
         if self.has_jump(st.body, (ast.Return,)):
-            raise Unsupported("return inside a loop")
+            if not self.cfg.get("loop_return") or self.M["type"] != "result" or self.return_state \
+                    or self.cfg.get("implicit_return") is not None:
+                raise Unsupported("return inside a loop")
+            rv = self.new("ret")
         env_body = dict(env)
         tvars = []
         for n, t in zip(tnames, elt):
@@ -1958,11 +2090,16 @@ class Tr:
                     continue
                 pre += "%s    let %s := %s in\n" % (ind, n, tv)
 
-        brk = self.has_jump(st.body, (ast.Break,))     # a `break` of THIS loop: the body answers (go on?, state)
+        brk = self.has_jump(st.body, (ast.Break,)) or rv is not None     # a `break` of THIS loop: the body answers (go on?, state)
         if brk and self.M["type"] != "result":
             raise Unsupported("break in a for loop under a non-default monad")
+        snames = carried + ([rv] if rv is not None else [])      # the names of the loop's state
 
         def kbody(env2, jump=None):
+            if rv is not None and isinstance(jump, tuple) and jump[0] == "return":      # `return e`: leave the loop with Some e
+                return "%s    Ok (false, %s)\n" % (ind, tuple_term(carried + ["(Some %s)" % jump[1]]))
+            if rv is not None and (jump is None or jump in ("continue", "break")):
+                return "%s    Ok (%s, %s)\n" % (ind, "false" if jump == "break" else "true", tuple_term(snames))
             if brk and (jump is None or jump in ("continue", "break")):
                 return "%s    Ok (%s, %s)\n" % (ind, "false" if jump == "break" else "true", tuple_term(carried))
             if jump is not None and jump != "continue":
@@ -1980,12 +2117,22 @@ class Tr:
         spat = tuple_pat(carried) if carried else "(_ : unit)"
         if len(carried) == 1:
             spat = "(%s : %s)" % (carried[0], coq_type(env[carried[0]]))
+        if rv is not None:
+            spat = tuple_pat(snames) if carried else "(%s : %s)" % (rv, coq_type(("opt", self.ret_type)))
         txt = "%s%s %s <- %s (fun %s %s =>\n%s%s%s  ) %s %s;\n" % (
-            ind, self.M["bind"], self.bind_pat(carried), "res_fold_brk" if brk else self.M["fold"], spat, xpat, pre, body, ind, xs, tuple_term(carried))
+            ind, self.M["bind"], self.bind_pat(snames), "res_fold_brk" if brk else self.M["fold"], spat, xpat, pre, body, ind, xs,
+            tuple_term(carried + (["(None : %s)" % coq_type(("opt", self.ret_type))] if rv is not None else [])))
         env_after = dict(env)
         for v in dropped:
             txt += "%slet %s := tt in\n" % (ind, v)   # poison: a later read is a type error
             env_after[v] = ("unit",)
+        if rv is not None:
+            # after the loop: a value returned inside it is the function's (or the enclosing loop's) return, else go on
+            rvv = self.new("v")
+            t_ret = k(env_after, jump=("return", rvv))
+            t_go = self.block(rest, env_after, k, ind + "  ")
+            return self.bind_hoist(hoist, txt, ind) + "%smatch %s with\n%s| Some %s =>\n%s%s| None =>\n%s%send\n" % (
+                ind, rv, ind, rvv, t_ret, ind, t_go, ind)
         return self.bind_hoist(hoist, txt, ind) + self.block(rest, env_after, k, ind)
 
     def while_loop(self, st, rest, env, k, ind):
@@ -2174,6 +2321,45 @@ def check_inherits(tree, cfg):
         own = [n.name for n in cls[0].body if isinstance(n, ast.FunctionDef) and n.name in names]
         if own:
             raise Unsupported("class %s defines its own %s" % (sub, ", ".join(own)))
+def check_dataclass(tree, cfg):
+    """cfg["dataclass"] = {"owner": type, "bases": [base class names], "fields": [field names in order]}: checked, not translated -
+    the class cfg["cls"] is decorated with exactly `@dataclass`, has exactly the declared bases, its annotated class-level names
+    (the dataclass fields, none with a default value) are exactly the declared fields in that order, it has no un-annotated
+    class attribute and defines none of __init__ / __post_init__ / __new__ / __slots__ / __setattr__ / __getattr__ /
+    __getattribute__; a keyword call `cls(...)` declared in cfg["kwcalls"] must take exactly the fields as parameters"""
+    dc = cfg.get("dataclass")
+    if not dc:
+        return
+    cls = [n for n in ast.walk(tree) if isinstance(n, ast.ClassDef) and n.name == cfg.get("cls")]
+    if len(cls) != 1:
+        raise Unsupported("dataclass %s not found exactly once" % cfg.get("cls"))
+    c = cls[0]
+    if [ast.unparse(d) for d in c.decorator_list] != ["dataclass"] or c.keywords:
+        raise Unsupported("class %s is not decorated with exactly @dataclass" % c.name)
+    if [ast.unparse(b) for b in c.bases] != list(dc["bases"]):
+        raise Unsupported("bases of dataclass %s changed: %r" % (c.name, [ast.unparse(b) for b in c.bases]))
+    fields = []
+    for n in c.body:
+        if isinstance(n, ast.AnnAssign):
+            if not isinstance(n.target, ast.Name) or n.value is not None:
+                raise Unsupported("dataclass field with a default value / a non-name target: " + ast.unparse(n)[:80])
+            fields.append(n.target.id)
+        elif isinstance(n, ast.FunctionDef):
+            if n.name in ("__init__", "__post_init__", "__new__", "__setattr__", "__getattr__", "__getattribute__"):
+                raise Unsupported("dataclass %s defines %s" % (c.name, n.name))
+        elif isinstance(n, ast.Expr) and isinstance(n.value, ast.Constant) and isinstance(n.value.value, str):
+            pass
+        else:
+            raise Unsupported("statement in the body of dataclass %s: %s" % (c.name, ast.unparse(n)[:80]))
+    if fields != list(dc["fields"]):
+        raise Unsupported("fields of dataclass %s changed: %r" % (c.name, fields))
+    if "cls" in cfg.get("kwcalls", {}) and [p for p, _, _ in cfg["kwcalls"]["cls"][2]] != fields:
+        raise Unsupported("the declared parameters of cls(...) are not the fields of dataclass %s" % c.name)
+    if "cls" in cfg.get("kwcalls", {}):      # `cls` is the class only in a classmethod whose first parameter it is
+        fn = [n for n in c.body if isinstance(n, ast.FunctionDef) and n.name == cfg["func"]]
+        if len(fn) != 1 or [ast.unparse(d) for d in fn[0].decorator_list] != ["classmethod"] \
+                or [a.arg for a in fn[0].args.args][:1] != ["cls"]:
+            raise Unsupported("cls(...) outside a plain @classmethod of dataclass %s" % c.name)
 def slice_body(f, markers):
     """cfg["body_slice"]: the top-level statements of f from the one whose first line is markers[0] to the one whose first
     line is markers[1], inclusive"""
@@ -2205,6 +2391,7 @@ def check_outside_names(f, run, allowed):
 def translate(source_text, cfg):
     tree = ast.parse(source_text)
     check_inherits(tree, cfg)
+    check_dataclass(tree, cfg)
     f = find_function(tree, cfg["func"], cfg.get("cls"))
     if cfg.get("generator"):
         if any(isinstance(n, (ast.YieldFrom, ast.Return)) for n in ast.walk(f)):
